@@ -209,6 +209,16 @@ func tokPolicy(label string) policy.Policy {
 		m := nMap(kv{"k", nList(nInt(1), nStr("s"), nBool(true))}, kv{"z", nNull()})
 		return policy.MustConstruct(policy.Equal(".a", m), policy.Equal(".b", literal.Bytes([]byte{9})), policy.Equal(".c", literal.Null()), policy.Equal(".d", literal.LinkCid(cidPool[42])))
 	}
+	switch label {
+	case "stars": // runs of wildcards, escaped and not
+		return policy.MustConstruct(policy.Like(".a", "a**b"), policy.Like(".b", "a***b"), policy.Like(".c", "****"), policy.Not(policy.Like(".d", `*\***\*`)),
+			policy.Any(".l", policy.Like(".", `a\****b*****`)), policy.Like(".e", `\***`))
+	case "ordering-non-numbers": // the constructors take any literal on the right of an ordering operator
+		m := nMap(kv{"k", nInt(1)})
+		return policy.MustConstruct(policy.GreaterThan(".name", literal.String("m")), policy.LessThanOrEqual(".b", nBool(true)), policy.GreaterThanOrEqual(".c", literal.Null()),
+			policy.Not(policy.LessThan(".d", literal.Bytes([]byte{1}))), policy.Any(".l", policy.GreaterThan(".", literal.LinkCid(cidPool[42]))),
+			policy.Or(policy.LessThan(".e", nList(nInt(1))), policy.GreaterThan(".f", m)))
+	}
 	panic("bad policy label " + label)
 }
 
@@ -267,7 +277,7 @@ func dlgOptDefs() []optDef {
 		{"sub", []string{"iss", "undef", "other", "root", "nokey"}}, // "root": built with delegation.Root (subject = issuer); "nokey": a DID that parses but holds no usable key
 		{"aud", []string{"other", "self", "nokey"}},
 		{"cmd", tokCommandLabels},
-		{"pol", []string{"empty", "eq", "nested", "int53max", "int53over", "values"}},
+		{"pol", []string{"empty", "eq", "nested", "int53max", "int53over", "values", "stars", "ordering-non-numbers"}},
 		{"nbf", timeLabels},
 		{"exp", timeLabels},
 		{"meta", metaLabels()},
